@@ -53,13 +53,15 @@ def run(ck):
         xr.seed_all(1200 + i + ck.seed)
         model = xr.xRFM(rfm_params=xr.default_rfm_params(iters=1, reg=1e-2, bandwidth=4.0), max_leaf_size=L, n_trees=n_trees, verbose=False,
                         tuning_metric=metric, classification_mode=mode, use_temperature_tuning=False,
-                        split_temperature=(0.5 if soft else None), refill_size=30)
+                        split_temperature=([0.5, 3.0][(i // 3) % 2] if soft else None), refill_size=30,
+                        # soft routing with a leaf cap that binds (fewer leaves allowed than the mass rule would keep) on every other soft fit
+                        **(dict(max_leaf_count_in_ensemble=[2, 1, 3][(i // 6) % 3], keep_weight_frac_in_predict=[0.99, 1.0][(i // 6) % 2]) if soft and (i // 3) % 2 else {}))
         try:
             with xr.quiet():
                 model.fit(torch.tensor(X), torch.tensor(y), torch.tensor(Xv), torch.tensor(yv))
         except Exception as e:
             ck.count(f'fit failed ({metric})'); ck.notes.append(f'fit failed {desc}: {e!r}'[:300]); continue
-        ck.count(f'K={K}'); ck.count(mode); ck.count(f'metric={metric}'); ck.count(f'trees={len(model.trees)}/{n_trees}'); ck.count('soft' if soft else 'hard')
+        ck.count(f'K={K}'); ck.count(mode); ck.count(f'metric={metric}'); ck.count(f'trees={len(model.trees)}/{n_trees}'); ck.count('soft' if soft else 'hard'); ck.count(f'leaf cap {model.max_leaf_count_in_ensemble} keep {model.keep_weight_frac_in_predict} T {model.split_temperature}')
         Q = np.concatenate([X[:4], xr.make_X('random', 4, d, rng), 1e6 * (np.abs(xr.make_X('random', 2, d, rng)) + 1.0)]).astype(np.float32)
         Qt = torch.tensor(Q)
         with xr.quiet():
